@@ -112,6 +112,9 @@ func genCase(t *rapid.T) urlCase {
 	c.Scheme = rapid.SampledFrom([]string{"http", "https"}).Draw(t, "scheme")
 	c.Host = rapid.SampledFrom([]string{"h", "example.com", "example.com:8080", "127.0.0.1:1", "[::1]:8443", "a-b.c"}).Draw(t, "host")
 	c.Root = rapid.SampledFrom([]string{"coll", "a", "greetings", "x1", "Coll_2"}).Draw(t, "root")
+	if c.Root != "Coll_2" && rapid.IntRange(0, 7).Draw(t, "host_is_root") == 0 {
+		c.Host = c.Root // a host named like the root resource: only path segments may be taken for the root
+	}
 	nctx := rapid.IntRange(0, 3).Draw(t, "nctx")
 	for i := 0; i < nctx; i++ {
 		kind := rapid.IntRange(0, 5).Draw(t, "ctxkind")
